@@ -153,7 +153,7 @@ def case_random(ctx, rng, wd, l=None):
     if min(float(np.min(t + np.eye(N) * 9)) for t in tables) < 1e-3:
         return
     if nlkind == "nnearest":
-        cn.Nnearests(snaps, int(rng.integers(3, 13)), ppp, fn)
+        cn.Nnearests(snaps, int(rng.integers(3, min(13, N))), ppp, fn)   # N_nn <= N-1 (domain)
     elif nlkind == "cutoff":
         flat = np.sort(tables[0][np.triu_indices(N, 1)])
         rc = min(flat[int(0.12 * len(flat))], 0.9 * ra)
